@@ -287,6 +287,15 @@ func init() {
 		for _, e := range es {
 			variants = append(variants, FaultVariant{E: e, Workers: []int{1, 2, 8}[vr.Intn(3)]})
 		}
+		// thorough: every pair of failing positions when the largest commit of the history is small
+		if tier == "thorough" && maxN >= 2 && maxN <= 9 {
+			for e := 0; e < maxN; e++ {
+				for d := 1; e+d < maxN; d++ {
+					variants = append(variants, FaultVariant{E: e, Pair: d, Workers: []int{1, 2, 8}[vr.Intn(3)]})
+				}
+			}
+			agg.Inc("c14.histories-with-all-pairs")
+		}
 		// pairs, persistent faults, identity-based faults, forced flavours
 		extra := 4
 		if tier == "thorough" {
